@@ -187,6 +187,8 @@ impl Property for C07 {
         )
             .prop_map(|(depth, backends, ops, positions, other_leaf)| {
                 let backends = if depth == 20 { vec![Optimal, Pm, RlnApi] } else { backends };
+                let mut ops = ops;
+                tame_for_depth20(depth, &mut ops);
                 Case { tree: TreeCase { depth, backends, ops }, positions, other_leaf }
             })
             .boxed()
